@@ -106,7 +106,7 @@ def main(argv=None):
     mod = importlib.import_module("pv.monitors." + prop.lower())
     tier = a.tier
     ncases = a.cases or mod.CASES[tier]
-    nshards = a.shards or min(int(os.environ.get("PV_SHARDS", os.cpu_count() or 4)), ncases)
+    nshards = a.shards or getattr(mod, "SHARDS", {}).get(tier) or min(int(os.environ.get("PV_SHARDS", os.cpu_count() or 4)), ncases)
     budget = getattr(mod, "BUDGET", {"quick": 70, "thorough": 1500})[tier]
     shard_timeout = budget * 3 + 240
     t0 = time.time()
